@@ -1,8 +1,11 @@
 //! Per-property case generators and implementation observers.
 use crate::term::*;
 
+pub mod c01;
 pub mod c02;
+pub mod c03;
 pub mod c05;
+pub mod c09;
 pub mod script;
 pub mod util;
 
@@ -11,16 +14,22 @@ pub type Gen = (Vec<Term>, Vec<(String, usize, bool)>);
 
 pub fn gen(prop: &str, tier: &str, seed: u64) -> Gen {
     match prop {
+        "C01" => c01::gen(tier, seed),
         "C02" => c02::gen(tier, seed),
+        "C03" => c03::gen(tier, seed),
         "C05" => c05::gen(tier, seed),
+        "C09" => c09::gen(tier, seed),
         _ => panic!("unknown property {}", prop),
     }
 }
 
 pub fn run(prop: &str, case: &Term) -> Term {
     match prop {
+        "C01" => c01::run(case),
         "C02" => c02::run(case),
+        "C03" => c03::run(case),
         "C05" => c05::run(case),
+        "C09" => c09::run(case),
         _ => panic!("unknown property {}", prop),
     }
 }
